@@ -675,6 +675,8 @@ def check_C03(ctx):
     must_violate(ctx, "EngineConc(Hidden)", S("mc", "MC_EngineConc_hidden.cfg"), S("mc", "MC_EngineConc.tla"), "Deterministic")
     engine_histories(ctx, 60 if q else 1200, 24, BUNDLED, "bundled")
     engine_histories(ctx, 60 if q else 1200, 24, rendered_voice_file(ctx), "rendered", seed_off=1)
+    # a voice set of three (the bundled voice and two perturbed copies): the interpolation weights are condition values with setters, too
+    engine_histories(ctx, 40 if q else 600, 24, ",".join(perturbed_voices(ctx, 2, "all")), "triple", seed_off=2)
     # the probe: compile-time Send + Sync, then k threads on one shared engine
     env = dict(os.environ); env["CARGO_NET_OFFLINE"] = "true"
     p = subprocess.run(["cargo", "build", "--release", "--quiet"], cwd=PROBE, env=env, stdout=subprocess.PIPE, stderr=subprocess.STDOUT, text=True)
